@@ -4,6 +4,7 @@ import ERP.Lemmas.Refine
 import Mathlib.Tactic.Linarith
 import Mathlib.Tactic.Ring
 import Mathlib.Tactic.FieldSimp
+import ERP.Lemmas.GenArith
 /-! # C16 — Arc moves are sampled faithfully (over ℝ, with `Real.sqrt/sin/cos`, `atan2 = Complex.arg`)
 
 About `T.planArc`, which the refinement theorem identifies with `planArc` of the faithful model on
